@@ -96,7 +96,9 @@ class C06(Prop):
                 "wrap": g.random() < 0.2 and nc >= 3, "policy_null": g.choice(["strict", "strict", "none"]),
                 "nkw": neutral_read_kw(g, exclude=("null_policy",)), "engine": g.choice(["numpy", "normal"]), "vers": g.choice([1.2, 2.0]), "case": g.choice(["upper", "upper", "lower", "preserve"]),
                 "channel": draw_read_channel(g, ascii_only=True, used_object_p=0.06), "policy": Policy.draw(st.io).to_json(),
-                "wkw": g.choice([{}, {}, {"version": 1.2}, {"wrap": True}, {"version": 2.0, "wrap": False}, {"fmt": "%.4f"}]),
+                "wkw": g.choice([{}, {}, {"version": 1.2}, {"wrap": True}, {"version": 2.0, "wrap": False}, {"fmt": "%.4f"},
+                                 {"fmt": "%12.4f", "len_numeric_field": -1}, {"fmt": "%+.3f"}, {"fmt": "%10.3E"}, {"fmt": "%-9.2f"},
+                                 {"column_fmt": {"1": "%8.2f"}}, {"column_fmt": {"1": "%+.5f", "2": "%G"}}]),
                 "out": g.choice(["path", "stream", "stringio"])}
 
     def text(self, sc):
@@ -180,13 +182,14 @@ class C06(Prop):
             res.nontrivial = n_null_nonindex > 0 and n_other > 0
             # write half: NaN -> current NULL, same NaN set after write -> read
             fmtw = sc["wkw"].get("fmt", "%.5f")
+            cfw = sc["wkw"].get("column_fmt") or {}
             if sc.get("retype") and sc["textcol"] is None:
                 # the caller keeps the table in another floating type (every curve, so the stacked table has it too)
                 for c in curves:
                     c.data = np.asarray(c.data).astype(sc["retype"])
                 res.count("retyped:" + sc["retype"])
             rounds_to_null = any(
-                (not math.isnan(float(x))) and float(fmtw % float(x)) == nullv
+                (not math.isnan(float(x))) and float(cfw.get(str(j), fmtw) % float(x)) == nullv
                 for j in range(1, nc) if j != sc["textcol"] for x in np.asarray(curves[j].data).tolist())
             if rounds_to_null:
                 # a finite sample whose printed form is numerically the NULL marker legitimately reads back as NaN
@@ -206,7 +209,7 @@ class C06(Prop):
                             break
                     res.count("in-place-nan-after-table-access")
                 try:
-                    out = write_via(fs, las, sc["out"], sc["wkw"], tag="c06")
+                    out = write_via(fs, las, sc["out"], fix_kw(sc["wkw"]), tag="c06")
                     back = read_via(fs, out, {"channel": "stringio", "codec": "utf-8", "explicit": False, "newline": "\n"},
                                     {"engine": sc["engine"]}, tag="c06")
                 except Exception as e:
